@@ -29,6 +29,7 @@ ASSUMPTIONS = [
     'binned wavelength width = 10000 * wavenumber width / centre^2 (first-order conversion at the bin centre, as used for observations)',
     'the reload clause compares constructor-level parameters that the writers store; opacities stay registered in the caches between write and reload',
 ]
+RULE = RULE + ' ' + 'Also: every stored dictionary holds a 0-d array and a non-contiguous view; native points exactly on bin edges; native bin widths and binned optical depths of the stored spectra.'
 REQUIRED = {'dict:array-0d': 0.05, 'dict:array-strided': 0.03, 'native-points-on-bin-edges': 0.03, 'part:retrieval': 0.04, 'part:dict': 0.08, 'part:spectrum': 0.08, 'part:model': 0.08}
 # coverage-guided extra (thorough tier): pure-Python taurex modules on this property's path, instrumented by atheris
 FUZZ = {'include': ['taurex.output', 'taurex.util.output', 'taurex.util.hdf5', 'taurex.util.util', 'taurex.binning'], 'runs': 8000, 'workers': 4}
